@@ -15,7 +15,7 @@ var (
 	Progress  atomic.Uint64
 	current   atomic.Pointer[Case]
 	curSite   atomic.Pointer[string]
-	HangAfter = 20 * time.Second
+	HangAfter = 45 * time.Second
 )
 
 func SetCurrent(c *Case) { current.Store(c); Progress.Add(1) }
